@@ -25,7 +25,15 @@ OPS = [
     (r"(?m)^\s*self\.(heapify|up_heapify|heap_build|bubble_up|heapify_min|heapify_max)\([^;]*\);\n", ""),
     (r"(?m)^\s*(self\.)?(store\.)?(size|pos|pos_back) [-+]= 1;\n", ""),
     (r"\.min\(", ".max("), (r"saturating_sub", "saturating_add"), (r"swap_remove\(", "remove("),
+    # second batch: exchanged helpers and directions
+    (r"\bleft\(", "right("), (r"\bright\(", "left("), (r"\bself\.heapify\(", "self.up_heapify("), (r"\bself\.up_heapify\(", "self.heapify("),
+    (r"\bbubble_up_min\(", "bubble_up_max("), (r"\bbubble_up_max\(", "bubble_up_min("), (r"\bheapify_min\(", "heapify_max("), (r"\bheapify_max\(", "heapify_min("),
+    (r"\bpop_min\(", "pop_max("), (r"\bpop_max\(", "pop_min("), (r"\bfind_min\(", "find_max("), (r"\bfind_max\(", "find_min("),
+    (r"\.first\(\)", ".last()"), (r"\.last\(\)", ".first()"), (r"Ordering::Less", "Ordering::Greater"), (r"Ordering::Greater", "Ordering::Less"),
+    (r"\bmin_by_key\(", "max_by_key("), (r"\bmax_by_key\(", "min_by_key("), (r"% 2 == 0", "% 2 == 1"), (r"\bparent\(parent\(", "parent(("),
+    (r"\bpush_increase\(", "push_decrease("), (r"\bpush_decrease\(", "push_increase("), (r"\.is_some\(\)", ".is_none()"), (r"\.is_none\(\)", ".is_some()"),
 ]
+FIRST_NEW = 23
 
 
 def sites():
@@ -117,6 +125,8 @@ if __name__ == "__main__":
     n, seed = int(sys.argv[1]), int(sys.argv[2])
     JOBS = int(sys.argv[3]) if len(sys.argv) > 3 else 3
     all_sites = sites()
+    if len(sys.argv) > 4 and sys.argv[4] == "new":
+        all_sites = [x for x in all_sites if x[5] >= FIRST_NEW]
     random.Random(seed).shuffle(all_sites)
     pick = all_sites[:n]
     print("%d mutation sites, %d sampled (seed %d)" % (len(all_sites), len(pick), seed), flush=True)
